@@ -118,7 +118,8 @@ def viewOf (c : Json) : PCaseView :=
 /-- could the context have been cancelled before the completion was reported? -/
 def hadCtx (v : PCaseView) : Bool :=
   v.calls.any (fun c =>
-    (c.isClose || (c.op == "provide" && c.stage == "cancelled" && !c.arg.isNull && !c.isFalseArg)) &&
+    (c.isClose || (c.op == "provide" && c.stage == "cancelled" && !c.arg.isNull && !c.isFalseArg &&
+        c.returned && c.err == "")) &&     -- only an ACCEPTED stop condition cancels (the stop input is once-only)
     (match v.completeIn with
      | some t => c.tCall < t
      | none => true))
@@ -226,9 +227,9 @@ def checkCase (c : Json) : Verdict := Id.run do
   let mut diffs : List String := []
   let mut detail : List (String × Json) := []
   let blocked := v.calls.filter (fun c => !c.returned)
-  let floodExplained := isPlugin && v.frozen &&
-    (v.calls.filter (fun c => c.op == "provide" && c.stage == "cancelled" && c.isTrueArg && c.returned)).length
-      ≥ Arca.Gen.pluginChan_signalToStep + 1
+  -- no call of the skeleton blocks any more (provide_never_blocks, provide_cancelled_never_blocks, close_returns):
+  -- a blocked call is never predicted
+  let floodExplained := false
   -- (i) model: trace is a path, with a feasible label
   let paths := if isPlugin then pluginPaths v.declared else Arca.Model.ForeachStep.foreachPaths
   let matching := paths.filter (fun p => p.2 == v.trace)
@@ -273,7 +274,7 @@ def checkCase (c : Json) : Verdict := Id.run do
   for c in blocked do
     if c.isClose then viol := viol ++ ["close-did-not-return"]
     else viol := viol ++ ["provide-blocked:" ++ c.stage]
-  let stagesOnce := if isPlugin then ["deploy", "enabling", "starting"] else ["enabling", "execute"]
+  let stagesOnce := if isPlugin then ["deploy", "enabling", "starting", "cancelled"] else ["enabling", "execute"]
   for st in stagesOnce do
     let cs := v.calls.filter (fun c => c.op == "provide" && c.stage == st && c.returned && c.panic.isEmpty)
     let validCs := cs.filter (·.valid)
@@ -284,6 +285,7 @@ def checkCase (c : Json) : Verdict := Id.run do
       let act : Act := match st with
         | "deploy" => .provideDeploy
         | "enabling" => .provideEnabling
+        | "cancelled" => .provideCancelled true
         | _ => .provideStarting true
       let expected := expectedOutcomes act validCs.length
       if accepted ≥ 2 then viol := viol ++ ["second-input-accepted:" ++ st]
@@ -312,9 +314,7 @@ def checkCase (c : Json) : Verdict := Id.run do
           && !(validCs.any (fun c => !definitelyBefore c && c.err == "")) then
         diffs := diffs ++ ["first-input-refused:" ++ st]
       if invalidCs.any (fun c => c.err == "" && definitelyBefore c) then diffs := diffs ++ ["invalid-input-accepted:" ++ st]
-  -- cancelled / no-op stages never fail
   for c in v.calls do
-    if c.op == "provide" && c.stage == "cancelled" && c.returned && c.err != "" then diffs := diffs ++ ["cancelled-input-error"]
     if c.isClose && c.returned && c.err != "" then detail := detail ++ [("close_error", Json.str c.err)]
   -- (iv) nothing after a close returned; finished
   let (late, firstRet) := lateCount v
